@@ -122,7 +122,24 @@ func fixed(v int64, n int) []byte {
 	return b
 }
 func unfixed(b []byte) int64 { return int64(binary.BigEndian.Uint64(b[len(b)-8:])) }
-func day(v int64) time.Time  { return time.Unix(v*86400, 0).UTC() }
+
+// day: the Date field of row v.  Odd ids are days BEFORE 1970-01-01 (id 1 = 1969-12-31, id 3 = 1969-12-30, ...), even ids are
+// days from 1970-01-01 on (id 0 = the epoch itself): half of the rows of every series / tags request carry a pre-1970 date (a sample
+// with a negative timestamp), which ClickHouse's Date stores modulo 2^16.  undate reads the id back from the stored value
+// (ids below 65536: the generator stays below 45000).  Added after the seeded change C02-e (ProcessRequest dropping the date and
+// labels of pre-1970 series rows while fingerprint / type are appended): every date of the old encoding was after 1970.
+func day(v int64) time.Time {
+	if v%2 != 0 {
+		return time.Unix(-((v-1)/2+1)*86400, 0).UTC()
+	}
+	return time.Unix(v/2*86400, 0).UTC()
+}
+func undate(x uint16) int64 {
+	if x >= 32768 {
+		return 2*(65535-int64(x)) + 1
+	}
+	return 2 * int64(x)
+}
 func atoi(s string) int64 {
 	v, err := strconv.ParseInt(s, 10, 64)
 	if err != nil {
@@ -258,7 +275,7 @@ func decodeCol(d proto.ColInput) ([]int64, error) {
 		}
 	case proto.ColDate:
 		for _, x := range c {
-			o = append(o, int64(x))
+			o = append(o, undate(uint16(x)))
 		}
 	case *proto.ColStr:
 		for i := 0; i < c.Rows(); i++ {
